@@ -69,4 +69,8 @@ let hol inp impl =
     (m, if m = impl then "1" else "0")
   | _ -> failwith "hol: bad input"
 
-let () = Registry.register "iso" iso; Registry.register "hol" hol
+(* isostress: concurrent hammering; by c11_projection_pure every connection sees
+   exactly its own session, so the only model observable is "ok" *)
+let isostress _inp impl = ("ok", if impl = "ok" then "1" else "0")
+
+let () = Registry.register "iso" iso; Registry.register "hol" hol; Registry.register "isostress" isostress
